@@ -332,12 +332,31 @@ func (d *Datastore) lowlevelTransactionSet(ctx context.Context, transaction *typ
 		delSl := deletesOwner.StringSlice()
 		log.Debugf("Deletes Owner: %s \n%s", intent.GetName(), strings.Join(delSl, "\n"))
 
+		// the entries that are to be removed are stored under the priority the intent had before
+		// the transaction, which is not necessarily the priority of the request.
+		deletePriority := intent.GetPriority()
+		if oldIntent := transaction.GetOldIntent(intent.GetName()); oldIntent != nil && len(oldIntent.GetUpdates()) > 0 {
+			deletePriority = oldIntent.GetPriority()
+			if deletePriority != intent.GetPriority() {
+				// the priority changed, nothing of the old version may remain
+				deletesOwner = oldIntent.GetPathSet().GetPaths()
+			}
+		}
+		err = d.cacheClient.Modify(ctx, d.Name(), &cache.Opts{
+			Store:    cachepb.Store_INTENDED,
+			Owner:    intent.GetName(),
+			Priority: deletePriority,
+		}, deletesOwner.ToStringSlice(), nil)
+		if err != nil {
+			return nil, fmt.Errorf("failed updating the intended store for %s: %w", d.Name(), err)
+		}
+
 		// modify intended store per intent
 		err = d.cacheClient.Modify(ctx, d.Name(), &cache.Opts{
 			Store:    cachepb.Store_INTENDED,
 			Owner:    intent.GetName(),
 			Priority: intent.GetPriority(),
-		}, deletesOwner.ToStringSlice(), updatesOwner)
+		}, nil, updatesOwner)
 
 		if err != nil {
 			return nil, fmt.Errorf("failed updating the intended store for %s: %w", d.Name(), err)
